@@ -102,7 +102,7 @@ RULE = ("cases are generated from VERIF_SEED by seven stream generators (styles:
 
 
 def gen_arr(rng, tier):
-    ncases = 400 if tier == "quick" else 5000
+    ncases = 400 if tier == "quick" else 15000
     maxops = 60 if tier == "quick" else 400
     cases = []
     for _ in range(ncases):
@@ -235,7 +235,7 @@ def _case_variant(rng, w):
 
 
 def gen_ht(rng, tier):
-    ncases = 260 if tier == "quick" else 2500
+    ncases = 260 if tier == "quick" else 7500
     big = 70 if tier == "quick" else 420
     cases = []
     for _ in range(ncases):
@@ -618,7 +618,7 @@ BUF_TEXT = b"ab, \tXy\n;,Z q\r\n"
 
 
 def gen_buf(rng, tier):
-    ncases = 300 if tier == "quick" else 3000
+    ncases = 300 if tier == "quick" else 9000
     maxops = 60 if tier == "quick" else 300
     cases = []
     for _ in range(ncases):
@@ -790,7 +790,7 @@ class SlRef:
 
 
 def gen_sl(rng, tier):
-    ncases = 260 if tier == "quick" else 2500
+    ncases = 260 if tier == "quick" else 7500
     maxops = 70 if tier == "quick" else 400
     cases = []
     for _ in range(ncases):
@@ -1009,7 +1009,7 @@ class LlRef:
 
 
 def gen_ll(rng, tier):
-    ncases = 260 if tier == "quick" else 2500
+    ncases = 260 if tier == "quick" else 7500
     maxops = 60 if tier == "quick" else 300
     fixed = _ll_fixed()
     cases = []
@@ -1370,13 +1370,13 @@ def _gen_allocfail(rng, tier, families, ncases_quick, ncases_thorough):
 
 def gen_allocfail(rng, tier):
     """containers whose every allocation the model predicts (array, `raw` hash table, byte buffer, linked list)"""
-    return _gen_allocfail(rng, tier, ["arr", "raw", "raw", "buf", "buf", "ll"], 300, 3000)
+    return _gen_allocfail(rng, tier, ["arr", "raw", "raw", "buf", "buf", "ll"], 300, 9000)
 
 
 def gen_allocfail_typed(rng, tier):
     """the typed hash tables: their seed, hence the number of allocations of an insert, is not predictable, so this
     stream has no model side; the reference monitor and the allocation ledger judge it"""
-    return _gen_allocfail(rng, tier, ["szvp", "strvp", "asvp", "vpvp", "vpstr", "dict"], 200, 1500)
+    return _gen_allocfail(rng, tier, ["szvp", "strvp", "asvp", "vpvp", "vpstr", "dict"], 200, 4500)
 
 
 def cmp_no_alloc_count(a, b):
